@@ -166,6 +166,13 @@ func engineLoadFaults(ctx *Ctx) {
 		{MaxAttempts: 6, BaseDelay: time.Hour, MaxDelay: 0, BackoffFactor: 1e9},
 		{MaxAttempts: 8, BaseDelay: 1, MaxDelay: 300 * time.Microsecond, BackoffFactor: 1e4},
 		{MaxAttempts: 10, BaseDelay: time.Duration(1 << 62), MaxDelay: 10 * time.Microsecond, BackoffFactor: 3},
+		// factors below one, zero and negative ones: "all retry configurations (attempts, base delay, factor, cap)" - the waits
+		// must still never decrease
+		{MaxAttempts: 5, BaseDelay: 200 * time.Microsecond, MaxDelay: 5 * time.Millisecond, BackoffFactor: 0.5},
+		{MaxAttempts: 6, BaseDelay: 100 * time.Microsecond, MaxDelay: time.Millisecond, BackoffFactor: 0.9},
+		{MaxAttempts: 4, BaseDelay: 300 * time.Microsecond, MaxDelay: 2 * time.Millisecond, BackoffFactor: 0},
+		{MaxAttempts: 6, BaseDelay: 50 * time.Microsecond, MaxDelay: time.Millisecond, BackoffFactor: -2},
+		{MaxAttempts: 5, BaseDelay: 100 * time.Microsecond, MaxDelay: 150 * time.Microsecond, BackoffFactor: 0.25},
 	}
 	caseNo := 0
 	moveAt := 0 // > 0: at that attempt the fault moves from the main file to the notebook
